@@ -282,6 +282,16 @@ func (ip *Interp) runClosure(fn *ssa.Function, args []any, binds []any, depth in
 					n = int(at.Len())
 				}
 				cell = &iArr{elems: make([]any, n)}
+				// a package-level variable starts as the zero value of its type
+				et := g.Type().Underlying().(*types.Pointer).Elem()
+				if at, isArr := et.Underlying().(*types.Array); isArr {
+					et = at.Elem()
+				}
+				if z := zeroOf(et, false); z != nil {
+					for i := range cell.elems {
+						cell.elems[i] = z
+					}
+				}
 				ip.globals[g] = cell
 			}
 			return iAddr{cell, -1}, true
@@ -445,6 +455,15 @@ func (ip *Interp) runClosure(fn *ssa.Function, args []any, binds []any, depth in
 				env[x] = iAddr{cells[x], -1} // whole-object address
 			case *ssa.IndexAddr:
 				base, ok := get(x.X)
+				if g, isG := x.X.(*ssa.Global); isG && !ok && ip.useGlobals && ip.globals == nil && g.Pkg != nil && strings.HasPrefix(g.Pkg.Pkg.Path(), modPath) {
+					// an element of a package-level array that is never written after initialisation
+					sp := shortPkg(g.Pkg.Pkg.Path())
+					if ip.m.globalMapWritten(sp, canonGlobalName(g)) == "" {
+						if arr, isArr := ip.m.evalGlobals(sp)[canonGlobalName(g)].(*iArr); isArr {
+							base, ok = iAddr{arr, -1}, true
+						}
+					}
+				}
 				idx, ok2 := get(x.Index)
 				ic, isC := idx.(constant.Value)
 				if ok && ok2 && isC {
